@@ -165,12 +165,29 @@ def run_unit(unit, work, tier='quick'):
             if cnt != 1:
                 raise Undecided('canary pattern %r did not match the generated code' % pat)
             gen = gen_m
-        gen2 = splice(gen, loops)
+        decls = {}
+        loops2 = {}
+        for key, lc in loops.items():
+            lc2 = {}
+            for kk, txt in lc.items():
+                for _ in range(6):
+                    if not re.search(r'FPXA?\(', txt or ''):
+                        break
+                    txt = fpx.expand(txt, decls)
+                lc2[kk] = txt
+            loops2[key] = lc2
+        gen2 = splice(gen, loops2)
         with open(os.path.join(d, 'gen.c'), 'w') as f:
             f.write(gen2)
         csrc = os.path.join(d, 'main.c')
-        decls = {}
         ctext = open(os.path.join(VERIF, 'contracts', unit['contracts'])).read()
+
+        def inline_inc(m):
+            hp = os.path.join(VERIF, 'contracts', m.group(1))
+            if os.path.exists(hp) and re.search(r'FPXA?\(', open(hp).read()):
+                return '/* inlined %s */\n' % m.group(1) + open(hp).read()
+            return m.group(0)
+        ctext = re.sub(r'#include "([\w.]+)"', inline_inc, ctext)
         for _ in range(6):
             if not re.search(r'FPXA?\(', re.sub(r'/\*.*?\*/', '', ctext, flags=re.S)):
                 break
@@ -188,7 +205,7 @@ def run_unit(unit, work, tier='quick'):
         defs = ['-D%s=%s' % kv for kv in dd.items()]
         defs.append('-DUNIT_%s' % re.sub(r'\W', '_', name))
         rc, out, err, _ = sh(['goto-cc', '-I' + HERE, '-I' + d, '-I' + os.path.join(VERIF, 'contracts')] + defs +
-                             ['--function', harness, csrc, '-o', os.path.join(d, 'a.gb')], log=log)
+                             ['-Werror=implicit-function-declaration', '--function', harness, csrc, '-o', os.path.join(d, 'a.gb')], log=log)
         if rc != 0:
             raise Undecided('goto-cc failed: ' + (err or out)[-800:])
         if unit.get('add_library', True):
